@@ -534,7 +534,8 @@ def cmpVal (o : CmpOp) : Val → Val → PyRes Val
 
 def unaryVal (neg : Bool) : Val → PyRes Val
   | .int x => match (if neg then negAction x else posAction x) with | .ok z => .ok (.int z) | .error e => .error e
-  | .sym _ => .error .other
+  -- `-'s'` raises TypeError; for `+` the rule returns its operand untouched (no operator is applied)
+  | .sym s => if neg then .error .other else .ok (.sym s)
 
 def sizeVal (s : IntSz) : Val → PyRes Val
   | .int x => match sizeAction s x with | .ok z => .ok (.int z) | .error e => .error e
